@@ -109,3 +109,14 @@ Theorem C05_inline_children_public_kinds : forall refs src lines ts,
   Forall (fun t => all_kinds inline_kind t = true) ts.
 Proof. exact InlineChildren_public_kinds. Qed.
 Print Assumptions C05_inline_children_public_kinds.
+
+(* ---------------- the same for the parser with extension.GFM (model/GfmI.v): for EVERY source
+   and every subset xc of the four extensions the tree is well formed - table cells' segments
+   inside the source included - with no run-time check (proofs/GfmWf*.v, 18 k lines: the range
+   and totality proofs of the default parser ported to the generalised driver copies, with
+   invariants for the table transformer: cells' segments, paragraphs that lose their last lines,
+   detached paragraph nodes) *)
+Require Import GM.model.InlineParseX GM.model.GfmI GM.proofs.GfmWf.
+Theorem C05_gfm_parser_output_wf : forall xc src t, bytes_ok src -> ParseTreeX xc src = Ok t -> wf_tree src t = true.
+Proof. exact ParseTreeX_wf. Qed.
+Print Assumptions C05_gfm_parser_output_wf.
